@@ -371,9 +371,9 @@ int main(int argc, char** argv)
     };
     if (!big) {
         // cheapest, most discriminating stages first: a deadline on a loaded machine then still leaves every oracle clause exercised
+        stages.push_back({"all sequences of <= 2 messages, base alphabet, inbound peer without permissions", all(deep_quick, 2, &A_BASE)});
         stages.push_back({"1 message of {block:badconnect, headers:badpow, tx:script, tx:amount}, local address, -blocksonly=0",
                           all([&](const Cfg& c) { return c.local && !c.blocksonly; }, 1, &A_PUNISH)});
-        stages.push_back({"all sequences of <= 2 messages, base alphabet, inbound peer without permissions", all(deep_quick, 2, &A_BASE)});
         stages.push_back({"1 message of {tx:valid, tx:amount, block:badconnect}, -blocksonly=1, both addresses",
                           all([&](const Cfg& c) { return c.blocksonly; }, 1, &A_TXPROBE)});
         stages.push_back({"1 message, base alphabet, non-local address, -blocksonly=0 (all 7 types x 5 permission sets except the depth-2 one)",
@@ -442,6 +442,7 @@ int main(int argc, char** argv)
         if (vx::deadline_reached()) { E.exhaustive = false; break; }
         arm();
         w.cfgs = st.cfgs;
+        if (st.cfgs.size() < 8) w.fs.split_depth = 1; // few configurations: the workers divide the first messages instead
         w.fs.run();
         for (int i = 0; i < 16; i++) outcome[i] += w.fs.sh->outcome_classes[i].load();
         if (w.fs.sh->deadline_hit.load()) { E.exhaustive = false; break; }
